@@ -54,6 +54,7 @@ type Scenario struct {
 	ZeroStart       bool          `json:"zero_start,omitempty"` // StartHeight 0 is meant literally
 	E2              *E2Spec       `json:"e2,omitempty"`         // open-environment mode: one real node
 	Pools           map[int][]H   `json:"pools,omitempty"`      // per-node initial pool (overrides Pool)
+	Oracle          string        `json:"oracle,omitempty"`     // extra world-level oracle: C08 | C09 | C16
 	ByzScript       []ByzStep     `json:"byz_script,omitempty"` // sends of the Byzantine member that are part of the base (cost 0)
 
 	// derived helpers (not serialised)
@@ -75,6 +76,7 @@ type Dev struct {
 	Reorder   bool `json:"reorder"`
 	Dup       bool `json:"dup"`
 	Premature bool `json:"premature"` // timer fires while messages are in flight (safety mode)
+	Hold      bool `json:"hold"`      // postpone one in-flight message until nothing else is deliverable
 	Stale     bool `json:"stale"`
 	Perm      bool `json:"perm"`
 	Byz       bool `json:"byz"`
@@ -168,9 +170,10 @@ func (e Event) String() string {
 func (e Event) same(o Event) bool { return e.K == o.K && e.N == o.N && e.P == o.P && e.A == o.A && e.B == o.B }
 
 type flight struct {
-	dst int
-	p   *Payload
-	seq int
+	dst  int
+	p    *Payload
+	seq  int
+	held bool // postponed until nothing else is deliverable (a slow link)
 }
 
 type Violation struct {
@@ -214,6 +217,14 @@ type World struct {
 	lastNPR *prepReq // arguments of the latest NewPrepareRequest callback (C15)
 	e2      *e2env
 	skips   int
+
+	start        time.Time
+	newTxDone    int
+	lastNewTx    time.Time
+	newTxPending bool      // a transaction appeared and no proposal has been made since
+	lastProposal time.Time // virtual instant of the latest PrepareRequest broadcast (C16)
+	proposals    int
+	extendedWaitAtNewTx bool // the primary of the current height was in its extended wait when the transaction appeared
 }
 
 // Stats are distinct-outcome counters accumulated across an exploration.
@@ -242,6 +253,7 @@ func newWorld(sc *Scenario, st *Stats) *World {
 	if sc.ClockNs != 0 {
 		w.now = time.Unix(0, sc.ClockNs).UTC()
 	}
+	w.start = w.now
 	genesisTS := uint64(w.now.UnixNano()) - uint64(sc.TimePerBlock)
 	if sc.PrevTS != 0 || sc.PrevTSSet {
 		genesisTS = sc.PrevTS
@@ -317,6 +329,7 @@ func (w *World) hookTimer(n *Node, op string, h uint32, v byte, d time.Duration)
 func (w *World) hookBroadcast(n *Node, p *Payload) {
 	w.stats.KindsSent[typeShort[p.typ]]++
 	w.logf("n%d broadcast %s", n.id, p)
+	w.oracleBroadcast(n, p)
 }
 
 // onDecide: C01 agreement, evaluated on every acceptance by a trusted node.
@@ -326,6 +339,9 @@ func (w *World) onDecide(n *Node, b *Block) {
 		return
 	}
 	w.stats.Decisions[fmt.Sprintf("h%d/v%d", b.index-w.sc.StartHeight, n.d.ViewNumber)]++
+	if w.sc.Oracle == "C08" && n.d.ViewNumber != 0 {
+		w.violate("C08", "C08/decided-in-higher-view", n, fmt.Sprintf("fault-free synchronous run decided height %d in view %d", b.index, n.d.ViewNumber))
+	}
 	if old, ok := w.decided[b.index]; ok {
 		if old != b.Hash() {
 			w.violate("C01", "C01/two-blocks-one-height", n, fmt.Sprintf("height %d: block %s accepted by node %d, block %s accepted earlier", b.index, b.Hash(), n.id, old))
@@ -345,14 +361,14 @@ func (w *World) send(from *Node, p *Payload) {
 		w.wire = append(w.wire, p)
 	}
 	for _, n := range w.nodes {
-		if n.id == from.id || !n.kind.real() {
+		if n.id == from.id || !n.live() {
 			continue
 		}
 		if w.cutActive && (slices.Contains(w.sc.CutSet, n.id) != slices.Contains(w.sc.CutSet, from.id) || slices.Contains(w.sc.CutSet, n.id)) {
 			continue // lost: a cut-off node neither sends nor receives
 		}
 		w.seq++
-		w.net = append(w.net, flight{n.id, p, w.seq})
+		w.net = append(w.net, flight{dst: n.id, p: p, seq: w.seq})
 	}
 }
 
@@ -364,15 +380,23 @@ func (w *World) inject(p *Payload, dsts []int) {
 		w.wire = append(w.wire, p)
 	}
 	for _, d := range dsts {
-		if w.nodes[d].kind.real() {
+		if w.nodes[d].live() {
 			w.seq++
-			w.net = append(w.net, flight{d, p, w.seq})
+			w.net = append(w.net, flight{dst: d, p: p, seq: w.seq})
 		}
 	}
 }
 
+func (w *World) heights() []uint32 {
+	var r []uint32
+	for _, n := range w.nodes {
+		r = append(r, n.height)
+	}
+	return r
+}
+
 func (w *World) liveValidator(n *Node) bool {
-	return n.kind.real() && n.d != nil && n.isValidator()
+	return n.live() && n.d != nil && n.isValidator()
 }
 
 // done: every trusted real node that takes part reached the target height.
@@ -393,7 +417,7 @@ func (n *Node) wantsTimer() bool {
 
 // lagging: the node's next block is already decided by someone else and the node is not about to process it itself.
 func (w *World) lagging(n *Node) bool {
-	if !n.kind.real() || n.pendingReset {
+	if !n.live() || n.pendingReset {
 		return false
 	}
 	_, ok := w.blocks[n.height+1]
@@ -402,7 +426,7 @@ func (w *World) lagging(n *Node) bool {
 	}
 	// only when every peer that could help has left that height
 	for _, o := range w.nodes {
-		if o.id != n.id && o.kind.real() && o.height <= n.height {
+		if o.id != n.id && o.live() && o.height <= n.height {
 			return false
 		}
 	}
@@ -432,14 +456,14 @@ func (w *World) enabled() []Event {
 
 	// 1. application resets
 	for _, n := range w.nodes {
-		if n.kind.real() && n.pendingReset {
+		if n.live() && n.pendingReset {
 			add(Event{K: "reset", N: n.id}, !have)
 			have = true
 		}
 	}
 	// 2. transaction supplies
 	for _, n := range w.nodes {
-		if !n.kind.real() || n.d == nil {
+		if !n.live() || n.d == nil {
 			continue
 		}
 		m := n.m
@@ -459,9 +483,18 @@ func (w *World) enabled() []Event {
 			}
 		}
 	}
-	// 3. deliveries, oldest first
+	// 3. deliveries, oldest first; held messages only when nothing else is deliverable
 	seen := map[[2]uint64]bool{}
+	anyFree := false
 	for _, f := range w.net {
+		if !f.held {
+			anyFree = true
+		}
+	}
+	for _, f := range w.net {
+		if f.held && (anyFree || have) {
+			continue
+		}
 		k := [2]uint64{uint64(f.dst), uint64(f.p.Hash())}
 		if seen[k] {
 			continue
@@ -473,6 +506,16 @@ func (w *World) enabled() []Event {
 			have = true
 		} else if sc.Dev.Reorder {
 			alt(e)
+		}
+	}
+	if sc.Dev.Hold {
+		hs := map[[2]uint64]bool{}
+		for _, f := range w.net {
+			k := [2]uint64{uint64(f.dst), uint64(f.p.Hash())}
+			if !f.held && !hs[k] {
+				hs[k] = true
+				alt(Event{K: "hold", N: f.dst, P: f.p.Hash()})
+			}
 		}
 	}
 	quiescent := !have
@@ -496,9 +539,20 @@ func (w *World) enabled() []Event {
 			var best time.Time
 			found := false
 			for _, n := range w.nodes {
-				if n.kind.real() && n.wantsTimer() {
+				if n.live() && n.wantsTimer() {
 					if d := n.t.deadline(); !found || d.Before(best) {
 						best, found = d, true
+					}
+				}
+			}
+			// a transaction scheduled to appear before (or at) the earliest deadline comes first / concurrently
+			if w.newTxDone < len(sc.NewTxAt) {
+				t := w.start.Add(time.Duration(sc.NewTxAt[w.newTxDone]) * time.Millisecond)
+				if !found || !t.After(best) {
+					add(Event{K: "newtx", N: 0, P: H(900 + w.newTxDone), A: 1}, !have)
+					have = true
+					if found && t.Before(best) {
+						found = false // the timers are not due yet
 					}
 				}
 			}
@@ -507,7 +561,7 @@ func (w *World) enabled() []Event {
 					best = w.now
 				}
 				for _, n := range w.nodes {
-					if n.kind.real() && n.wantsTimer() && !n.t.deadline().After(best) {
+					if n.live() && n.wantsTimer() && !n.t.deadline().After(best) {
 						add(Event{K: "timeout", N: n.id}, !have)
 						have = true
 					}
@@ -522,7 +576,7 @@ func (w *World) enabled() []Event {
 			}
 			var cs []cand
 			for _, n := range w.nodes {
-				if n.kind.real() && n.wantsTimer() {
+				if n.live() && n.wantsTimer() {
 					cs = append(cs, cand{n, n.t.d})
 				}
 			}
@@ -540,7 +594,7 @@ func (w *World) enabled() []Event {
 	// 6. pure deviations
 	if sc.Dev.Dup {
 		for _, n := range w.nodes {
-			if !n.kind.real() {
+			if !n.live() {
 				continue
 			}
 			var hs []H
@@ -557,7 +611,7 @@ func (w *World) enabled() []Event {
 	}
 	if sc.Dev.Stale {
 		for _, n := range w.nodes {
-			if !n.kind.real() || !n.isValidator() {
+			if !n.live() || !n.isValidator() {
 				continue
 			}
 			c := n.ctx()
@@ -570,7 +624,7 @@ func (w *World) enabled() []Event {
 	}
 	if sc.Dev.Perm {
 		for _, n := range w.nodes {
-			if n.kind.real() {
+			if n.live() {
 				for mode := 0; mode < 3; mode++ {
 					if mode != n.permMode {
 						alt(Event{K: "perm", N: n.id, A: mode})
@@ -610,6 +664,9 @@ func (w *World) focusFilter(evs []Event) []Event {
 	return evs
 }
 
+// live: the node has a running library instance.
+func (n *Node) live() bool { return n.kind.real() && !n.crashed }
+
 func (w *World) find(dst int, h H, remove bool) *Payload {
 	for i, f := range w.net {
 		if f.dst == dst && f.p.Hash() == h {
@@ -638,6 +695,18 @@ func (w *World) apply(e Event) {
 		}
 		w.got[e.N][e.P] = p
 		n.Receive(p)
+	case "hold":
+		ok := false
+		for i := range w.net {
+			if w.net[i].dst == e.N && w.net[i].p.Hash() == e.P && !w.net[i].held {
+				w.net[i].held = true
+				ok = true
+				break
+			}
+		}
+		if !ok {
+			panic(harnessFault{"replay divergence: hold of a payload that is not in flight: " + e.String()})
+		}
 	case "dup":
 		p := w.got[e.N][e.P]
 		if p == nil {
@@ -670,14 +739,35 @@ func (w *World) apply(e Event) {
 	case "tx":
 		n.SupplyTx(e.P)
 	case "newtx":
+		if e.A == 1 {
+			if w.newTxDone >= len(w.sc.NewTxAt) {
+				panic(harnessFault{"replay divergence: no transaction scheduled"})
+			}
+			t := w.start.Add(time.Duration(w.sc.NewTxAt[w.newTxDone]) * time.Millisecond)
+			if t.After(w.now) {
+				w.now = t
+				for _, o := range w.nodes {
+					o.fpValid = false
+				}
+			}
+			w.newTxDone++
+			w.lastNewTx = w.now
+			w.newTxPending = true
+			w.extendedWaitAtNewTx = false
+			for _, o := range w.nodes {
+				if o.live() && o.d != nil && o.ctx().IsPrimary() && !o.ctx().RequestSentOrReceived() && txSubscribed(o) && !o.pendingReset {
+					w.extendedWaitAtNewTx = true
+				}
+			}
+		}
 		for _, o := range w.nodes {
-			if o.kind.real() {
+			if o.live() {
 				o.known[e.P] = true
 				o.pool = append(o.pool, e.P)
 			}
 		}
 		for _, o := range w.nodes {
-			if o.kind.real() {
+			if o.live() {
 				o.NewTxNotify()
 			}
 		}
@@ -703,9 +793,7 @@ func (w *World) apply(e Event) {
 		panic(harnessFault{"unknown event kind " + e.K})
 	}
 	n.fpValid = false
-	if !w.sc.Timed {
-		return
-	}
+	w.oracleAfterEvent(e)
 }
 
 func (w *World) afterExpiry() {
@@ -787,6 +875,10 @@ func (w *World) key() [2]uint64 {
 		if !n.kind.real() {
 			continue
 		}
+		if n.crashed {
+			put(0xdead)
+			continue
+		}
 		if !n.fpValid {
 			n.fpCache = fingerprint(n, fpNoSkip)
 			n.fpValid = true
@@ -800,11 +892,18 @@ func (w *World) key() [2]uint64 {
 		for _, f := range w.net {
 			put(uint64(f.dst))
 			put(uint64(f.p.Hash()))
+			if f.held {
+				put(7)
+			}
 		}
 	} else {
 		var xs []uint64
 		for _, f := range w.net {
-			xs = append(xs, uint64(f.p.Hash())*31+uint64(f.dst))
+			x := uint64(f.p.Hash())*31 + uint64(f.dst)
+			if f.held {
+				x ^= 0x8000000000000000
+			}
+			xs = append(xs, x)
 		}
 		slices.Sort(xs)
 		put(uint64(len(xs)))
@@ -824,6 +923,11 @@ func (w *World) key() [2]uint64 {
 	if w.sc.Timed {
 		put(uint64(w.now.UnixNano()))
 		put(uint64(w.expiries))
+		put(uint64(w.newTxDone))
+		if w.newTxPending {
+			put(1)
+		}
+		put(uint64(w.lastProposal.UnixNano()))
 	}
 	if w.cutActive {
 		put(uint64(1000 + w.cutLeft))
